@@ -172,6 +172,10 @@ def cors_process_response(v):
     if out.exc is not None:
         return
     H1 = map_of(v, resp)
+    # frame beyond the header map: raw Set-Cookie lines, cookies and the policy configuration itself are never touched
+    v.check('extra-lines-cookies-and-configuration-untouched',
+            v.get(resp, '_extra_headers') is None and v.get(resp, '_cookies') is None and v.get(mw, 'allow_origins') is ao
+            and v.get(mw, 'allow_credentials') is ac and v.get(mw, 'expose_headers') is expose)
 
     # ---- specification, written from the property statement -------------------------
     if origin is None:
